@@ -210,11 +210,13 @@ def placeholder_tables(ck):
     tt = token_fns(F, "appendToString").get("TimeToken")
     if tt is not None:
         kws = set()
-        for n in tt.calls():
-            if n.get("op") == "==" and len(n.get("args", [])) == 2:
-                for y in n["args"]:
-                    if const_str(y) is not None:
-                        kws.add(const_str(y))
+        # wherever the class decides what the text after "time" means: appendToString, the constructor, a classifying helper
+        for tf in [f_ for f_ in F.fns.values() if f_.cls and f_.cls == tt.cls and f_.body is not None] + [tt]:
+            for n in tf.calls():
+                if n.get("op") == "==" and len(n.get("args", [])) == 2:
+                    for y in n["args"]:
+                        if const_str(y) is not None:
+                            kws.add(const_str(y))
         ck.ob("C12-O2", sitestr(tt), docs["time"] <= kws, "time keywords %s are handled" % sorted(docs["time"]) if docs["time"] <= kws else "documented time keywords not handled: %s" % sorted(docs["time"] - kws), key="TimeToken|keywords")
     # %% escape: an append of '%' whose position advance is 2
     g = Graph(pp)
@@ -322,7 +324,16 @@ def value_paths(ck):
     sk = [n for n in fm.calls() if name_is(n.get("callee"), "appendSkipping")]
     ap = [n for n in fm.calls() if name_is(n.get("callee"), "appendToString")]
     ra = [n for n in fm.calls() if name_is(n.get("callee"), "removeAfter")]
-    ok = len(sk) == 1 and len(ap) == 1 and len(ra) == 1
+    ok = len(sk) == 1 and len(ap) <= 1 and len(ra) == 1
+    if ok and not ap:
+        # every token goes through appendSkipping(lmsg, dest, skip): for tokens that do not override it the base implementation must be
+        # a plain appendToString
+        base_sk = [f_ for f_ in F.fns.values() if f_.name.endswith("::Token::appendSkipping") and f_.body is not None]
+        ok = len(base_sk) == 1
+        if ok:
+            gb = Graph(base_sk[0])
+            cs_ = [n for n in base_sk[0].calls() if name_is(n.get("callee"), "appendToString")]
+            ok = len(cs_) == 1 and gb.must_pass({gb.site_of(cs_[0])})
     if ok:
         # exactly one of the two appends per token whose condition holds
         chk = [n for n in fm.calls() if name_is(n.get("callee"), "checkCondition") and any(a.get("id") == [l for l in find_loops(fm)][-1]["id"] for a in fm.ancestors(n))]
@@ -331,7 +342,7 @@ def value_paths(ck):
             keep_t = g.projector(atom_eq(value_pred(fm, chk[0]), True))
             keep_f = g.projector(atom_eq(value_pred(fm, chk[0]), False))
             cs = g.site_of(chk[0])
-            both = {g.site_of(sk[0]), g.site_of(ap[0])}
+            both = {g.site_of(x_) for x_ in sk + ap}
             a = g.postdominated(cs, both, keep=keep_t)
             b = not (both & g.reach([cs], blocked={g.site_of(find_loops(fm)[-1]["desugar"]["cond"])}, keep=keep_f, include_start=False))
             ok = a and b
